@@ -280,7 +280,50 @@ func randModule(r *core.RNG, malformed bool) input {
 	}
 	in.All = r.Chance(35)
 	in.Force = r.Chance(30)
+	// generators that ask Context.Doc about type parameters, field types and local types before they record
+	in.Probe = r.Chance(50)
+	for pi := range in.Pkgs {
+		for fi := range in.Pkgs[pi].Files {
+			for ti := range in.Pkgs[pi].Files[fi].Types {
+				if t := &in.Pkgs[pi].Files[fi].Types[ti]; t.Kind == "generic" && r.Chance(35) {
+					t.TParamLine = true
+				}
+			}
+		}
+	}
+	if r.Chance(35) {
+		addLineDirectives(r, &in, 35)
+	}
 	return in
+}
+
+// addLineDirectives puts `//line <file>:<n>` above some declarations (package-level, grouped, function-local).  The named
+// file lies in the same directory; its name is the physical file's own name (pure renumbering) or one derived from it
+// (so two physical files never claim the same lines); line numbers only move forward within a physical file.
+func addLineDirectives(r *core.RNG, in *input, percent int) {
+	for pi := range in.Pkgs {
+		for fi := range in.Pkgs[pi].Files {
+			f := &in.Pkgs[pi].Files[fi]
+			stem := strings.TrimSuffix(f.Name, ".go")
+			next := 1000
+			place := func(t *typeDecl) {
+				if !r.Chance(percent) {
+					return
+				}
+				t.LineFile = core.Pick(r, []string{stem + "_gram.y", stem + ".go.tmpl", f.Name, stem + "_gram.y"})
+				t.LineNo = next + r.Intn(50)
+				next += 1000
+			}
+			for ti := range f.Types {
+				place(&f.Types[ti])
+			}
+			for ki := range f.Funcs {
+				for li := range f.Funcs[ki].Locals {
+					place(&f.Funcs[ki].Locals[li])
+				}
+			}
+		}
+	}
 }
 
 // ---- fixed corner cases ----
@@ -353,6 +396,68 @@ func fixedCases() []input {
 	tp2 := tp
 	tp2.All = false
 	out = append(out, tp2)
+	out = append(out, probeCases()...)
+	out = append(out, lineDirectiveCases()...)
+	return out
+}
+
+// The generator asks Context.Doc about the type parameters / field types of what it visits and about local types, before
+// the package-level type of the same name is visited (generic types sort before the types they shadow): the verdict for
+// that type is still decided by its own declaration.
+func probeCases() []input {
+	var out []input
+	gen := func(id int, n, tp string, own bool, tags []tagLine) typeDecl {
+		return typeDecl{ID: id, Name: n, Kind: "generic", TParam: tp, TParamLine: own, Tags: tags}
+	}
+	for _, own := range []bool{false, true} {
+		// the package enables the generator, the shadowed type opts out
+		a := one("deep", true, nil, on("deep"), []typeDecl{gen(1, "Bag", "Item", own, nil), st(2, "Item", off("deep")), st(3, "Plain", nil), {ID: 4, Name: "Ref", Kind: "alias"}}, nil)
+		// both opt in at declaration level
+		b := one("deep", false, nil, nil, []typeDecl{gen(1, "Cache", "Entry", own, on("deep")), st(2, "Entry", on("deep")), st(3, "Zed", nil)}, nil)
+		// the generic type opts out, the shadowed type inherits from the package; a method declares the parameter again
+		c := one("deep", false, nil, on("deep"), []typeDecl{{ID: 1, Name: "Box", Kind: "generic", TParam: "T", TParamLine: own, Method: true, Tags: off("deep")}, st(2, "T", nil), st(3, "U", sub("deep"))}, nil)
+		// global tags, sub-option only on the shadowed type, two generators
+		d := one("deep", true, off("deep"), nil, []typeDecl{gen(1, "A", "K", own, on("deep")), st(2, "K", sub("deep")), st(3, "L", nil)}, nil)
+		d.Gens = append(d.Gens, genSpec{Name: "deepcopy"})
+		for _, in := range []input{a, b, c, d} {
+			in.Probe = true
+			out = append(out, in)
+		}
+	}
+	// type parameters of functions and function-local types named like package-level types, with other tags above them
+	e := one("deep", true, nil, on("deep"), []typeDecl{st(1, "A", off("deep")), st(2, "B", nil), {ID: 3, Name: "C", Kind: "alias", Tags: off("deep")}},
+		[]funcDecl{{Name: "F", TParams: []string{"A", "C"}}, {Name: "G", Locals: []typeDecl{st(4, "B", off("deep")), {ID: 5, Name: "A", Kind: "int", Tags: on("deep")}}}})
+	e.Probe = true
+	out = append(out, e)
+	f := one("deep", false, nil, nil, []typeDecl{st(1, "A", on("deep")), st(2, "B", on("deep")), st(3, "Z", on("deep"))},
+		[]funcDecl{{Name: "F", TParams: []string{"B"}, Locals: []typeDecl{st(4, "A", off("deep")), st(5, "Z", nil)}}})
+	f.Probe = true
+	out = append(out, f)
+	return out
+}
+
+// Declarations below a `//line` directive (parser generators, template engines): their doc tags count like any other.
+func lineDirectiveCases() []input {
+	var out []input
+	ld := func(d typeDecl, file string, n int) typeDecl {
+		d.LineFile, d.LineNo = file, n
+		return d
+	}
+	for _, file := range []string{"gram.y", "a.go", "a.go.tmpl"} {
+		// declarations opt in
+		out = append(out, one("deep", true, nil, nil, []typeDecl{st(1, "Before", on("deep")), ld(st(2, "After", on("deep")), file, 100),
+			{ID: 3, Name: "AliasAfter", Kind: "alias", Tags: on("deep")}, st(4, "Untagged", nil)}, nil))
+		// the package opts in, declarations opt out
+		out = append(out, one("deep", false, nil, on("deep"), []typeDecl{st(1, "Plain", nil), ld(st(2, "SkippedAfter", off("deep")), file, 40), st(3, "Zed", nil),
+			ld(st(4, "Sub", []tagLine{tv("gengo:deep", "false"), tl("gengo:deep:sub")}), file, 2000)}, nil))
+		// global opt-out, sub-options and grouped declarations below the directive; a local type below one
+		g := one("deep", true, off("deep"), nil, []typeDecl{
+			{ID: 1, Name: "G1", Kind: "struct", Group: 1, Tags: on("deep")}, ld(typeDecl{ID: 2, Name: "G2", Kind: "struct", Group: 1, Tags: sub("deep")}, file, 300),
+			{ID: 3, Name: "G3", Kind: "alias", Group: 1, Tags: on("deep")}, ld(typeDecl{ID: 4, Name: "Gen", Kind: "generic", TParam: "G1", Tags: on("deep")}, file, 700)},
+			[]funcDecl{{Name: "F", Locals: []typeDecl{ld(st(5, "G2", on("deep")), file, 900)}}})
+		g.Probe = true
+		out = append(out, g)
+	}
 	return out
 }
 
@@ -589,6 +694,11 @@ func (prop) Shrink(raw json.RawMessage) []json.RawMessage {
 		c.Force = false
 		add(c)
 	}
+	if in.Probe {
+		c := clone(in)
+		c.Probe = false
+		add(c)
+	}
 	for pi := range in.Pkgs {
 		p := in.Pkgs[pi]
 		if len(p.Files) > 1 {
@@ -643,6 +753,16 @@ func (prop) Shrink(raw json.RawMessage) []json.RawMessage {
 					c.Pkgs[pi].Files[fi].Types[ti].Kind = "struct"
 					add(c)
 				}
+				if t.LineFile != "" {
+					c := clone(in)
+					c.Pkgs[pi].Files[fi].Types[ti].LineFile, c.Pkgs[pi].Files[fi].Types[ti].LineNo = "", 0
+					add(c)
+				}
+				if t.TParamLine {
+					c := clone(in)
+					c.Pkgs[pi].Files[fi].Types[ti].TParamLine = false
+					add(c)
+				}
 			}
 			for ki, fn := range f.Funcs {
 				for i := range fn.TParams {
@@ -656,10 +776,10 @@ func (prop) Shrink(raw json.RawMessage) []json.RawMessage {
 					d := c.Pkgs[pi].Files[fi].Funcs[ki].Locals
 					c.Pkgs[pi].Files[fi].Funcs[ki].Locals = append(d[:i:i], d[i+1:]...)
 					add(c)
-					if len(l.Tags) > 0 || l.Action != "" || len(l.Defers) > 0 {
+					if len(l.Tags) > 0 || l.Action != "" || len(l.Defers) > 0 || l.LineFile != "" {
 						c := clone(in)
 						x := &c.Pkgs[pi].Files[fi].Funcs[ki].Locals[i]
-						x.Tags, x.Action, x.Defers = nil, "", nil
+						x.Tags, x.Action, x.Defers, x.LineFile, x.LineNo = nil, "", nil, "", 0
 						add(c)
 					}
 				}
